@@ -321,9 +321,13 @@ End Total.
 Definition named_rejected (v : json) : Prop :=
   exists s, dec_named_model v = Ok s /\ named_try_new s = Err.
 Definition named_gap (j : json) : Prop := exists v, In v (named_sites j) /\ named_rejected v.
+(* FXRates: the reconstruction rejects the data, or a quote holds an ill-shaped Dual / Dual2 (F5 inside
+   F4: the reconstruction then runs dual arithmetic on arrays of different lengths, which ndarray
+   refuses by aborting; that arithmetic is outside the modelled domain) *)
 Definition fx_gap (j : json) : Prop :=
   exists v rest d, j = JObj ((KStr k_FXRates, v) :: rest) /\ dec_fxdata v = Ok d /\
-                   rebuild_fx_expect d = Panic.
+                   (rebuild_fx_expect d = Panic \/
+                    existsb (fun r => negb (wf_numberb (fr_rate r))) (fd_rates d) = true).
 
 Lemma dec_named_panic v : dec_named rebuild_named_expect v = Panic -> named_rejected v.
 Proof.
@@ -806,7 +810,7 @@ Lemma c20_load_refuted_fx : forall (T : Type) (H : Num T),
 Proof.
   intros T H. split; [|vm_compute; reflexivity].
   right. left. exists (JObj [(KStr k_fx_rates, JArr []); (KStr k_currencies, JArr [])]), [], (mkJFxData [] []).
-  split; [reflexivity|]. split; vm_compute; reflexivity.
+  split; [reflexivity|]. split; [vm_compute; reflexivity | left; vm_compute; reflexivity].
 Qed.
 Lemma c20_load_refuted_shape : forall (T : Type) (H : Num T),
   KnownGap (doc_dual_short (T:=T)) /\
